@@ -31,7 +31,7 @@ import (
 )
 
 // Scenarios lists the scenario names.
-var Scenarios = []string{"relay", "aggregate", "rvesting", "adapters", "clients", "eth-pow", "bsc-search", "upgrade"}
+var Scenarios = []string{"relay", "aggregate", "rvesting", "adapters", "clients", "eth-pow", "bsc-search", "upgrade", "process-history"}
 
 // RunScenario executes one scenario and returns its trace.
 func RunScenario(name string) []string {
@@ -76,6 +76,33 @@ func RunScenario(name string) []string {
 		bscSearch(&trace)
 	case "upgrade":
 		upgrade()
+	case "process-history":
+		// the same histories twice in one process, each on fresh chains: the second replay must not see anything the first
+		// left behind in process memory (package-level variables, caches) — a node that has been running and a node that
+		// was just restarted must agree
+		var first, second []string
+		for _, t := range []*[]string{&first, &second} {
+			world.GlobalTrace = t
+			ethPow() // first the proof-of-work update, then the histories that exercise the rarer branches (a late header, forks, set switches)
+			clients()
+		}
+		trace = append(trace, first...)
+		verdict := fmt.Sprintf("teleport_process_history same (%d lines)", len(first))
+		for i := 0; i < len(first) || i < len(second); i++ {
+			if i >= len(first) || i >= len(second) || first[i] != second[i] {
+				a, b := "(end)", "(end)"
+				if i < len(first) {
+					a = first[i]
+				}
+				if i < len(second) {
+					b = second[i]
+				}
+				verdict = fmt.Sprintf("teleport_process_history DIFFERS at line %d: first replay {%s} second replay {%s}", i, a, b)
+				break
+			}
+		}
+		trace = append(trace, verdict)
+		world.GlobalTrace = &trace
 	default:
 		panic("unknown scenario " + name)
 	}
